@@ -16,8 +16,9 @@ Definition rec_ok_strict (d : list Z) (r : rec) : Prop :=
   (forall i, 0 <= i < r_idx r -> i < len d -> dnth d i < r_ts r) /\
   (forall i, r_idx r < i -> i < len d -> r_ts r <= dnth d i).
 
+(* the time range the index REPORTS for the chunk (unlimited while the info is marked partial) contains its timestamps *)
 Definition hull_ok (k : chk_info) (d : list Z) : Prop :=
-  forall i, 0 <= i < len d -> k_min k <= dnth d i <= k_max k.
+  forall i, 0 <= i < len d -> k_rmin k <= dnth d i <= k_rmax k.
 Definition index_ok (P : list Z -> rec -> Prop) (k : chk_info) (d : list Z) : Prop :=
   k_bad k = false -> forall rs, k_root k = Some rs -> sorted_ts rs /\ forall r, In r rs -> P d r.
 Definition chunk_inv (k : chk_info) (d : list Z) : Prop := hull_ok k d /\ index_ok rec_ok k d.
